@@ -230,6 +230,10 @@ pub struct Shared {
     pub partial_reads: u64,
     pub pendings: u64,
     pub transport_calls: u64,
+    /// C20: called at the start of every transport callback of `hook_side` (before the simulator's own lock is taken), i.e.
+    /// at the points where the connection task has released h2's internal locks around I/O
+    pub hook: Option<Arc<dyn Fn(&'static str) + Send + Sync>>,
+    pub hook_side: Side,
 }
 
 pub type Sh = Arc<Mutex<Shared>>;
@@ -249,6 +253,8 @@ pub fn new_shared(prefix: Vec<u32>) -> Sh {
         partial_reads: 0,
         pendings: 0,
         transport_calls: 0,
+        hook: None,
+        hook_side: Side::Client,
     }))
 }
 
@@ -343,7 +349,21 @@ enum WOpt {
 }
 
 impl SimIo {
+    fn pre(&self, kind: &'static str) {
+        let hook = {
+            let s = self.sh.lock().unwrap();
+            if s.hook_side == self.side {
+                s.hook.clone()
+            } else {
+                None
+            }
+        };
+        if let Some(h) = hook {
+            h(kind);
+        }
+    }
     fn do_write(&mut self, cx: &mut Context<'_>, data: &[u8]) -> Poll<io::Result<usize>> {
+        self.pre("write");
         let mut s = self.sh.lock().unwrap();
         let me = self.side.idx();
         s.transport_calls += 1;
@@ -445,6 +465,7 @@ impl AsyncWrite for SimIo {
         self.sh.lock().unwrap().policy[self.side.idx()].vectored
     }
     fn poll_flush(self: Pin<&mut Self>, cx: &mut Context<'_>) -> Poll<io::Result<()>> {
+        self.pre("flush");
         let mut s = self.sh.lock().unwrap();
         let me = self.side.idx();
         s.transport_calls += 1;
@@ -501,6 +522,7 @@ enum ROpt {
 
 impl AsyncRead for SimIo {
     fn poll_read(self: Pin<&mut Self>, cx: &mut Context<'_>, buf: &mut ReadBuf<'_>) -> Poll<io::Result<()>> {
+        self.pre("read");
         let mut s = self.sh.lock().unwrap();
         let me = self.side.idx();
         let from = self.side.other().idx();
